@@ -5,8 +5,8 @@
    the string constants the Go code compares against or emits.  Rows are emitted in the order in which
    the Go code appends them (per application: App, app tags/annos, mixins, endpoints [params,
    statements in post-order], types [fields], views); the relation a row belongs to is its r_rel tag.
-   Maps of the module (Endpoints, Types, AttrDefs, Attrs, Views) arrive as lists in the order chosen by
-   the caller: the Go iteration order is random and the schema relations are unordered.
+   Maps of the module (Endpoints, Types, AttrDefs, Attrs, Views) arrive as lists in any order (the Go iteration
+   order is random) and are walked in ascending key order, as the code does since it ranges over sortedKeys(...).
 
    Position paths: `path_items` is the value-semantics construction (the code after the fix: a fresh
    copy of the parent path per child); `heap_items` models Go slices with shared backing arrays, i.e.
@@ -22,12 +22,28 @@ Import ListNotations.
 Definition name := positive.
 Definition appname := list name.
 
-Definition n_method : name := 1%positive.        (* "method" *)
-Definition n_path : name := 2%positive.          (* "path" *)
-Definition n_query : name := 3%positive.         (* "query" *)
-Definition n_any : name := 4%positive.           (* "any" *)
-Definition n_placeholder : name := 5%positive.   (* "..." *)
-Definition n_empty : name := 6%positive.         (* "" *)
+(* The harness interns ORDER-PRESERVINGLY: ids compare (Pos order) as the strings do in Go (bytewise), so that the
+   sortedKeys walks of the code are sorts by id here. The six constants keep fixed ids 2^20 apart; a string with j
+   constants below it gets j * 2^20 + its rank among such strings. *)
+Definition n_empty : name := 1048576%positive.        (* "" *)
+Definition n_placeholder : name := 2097152%positive.  (* "..." *)
+Definition n_any : name := 3145728%positive.          (* "any" *)
+Definition n_method : name := 4194304%positive.       (* "method" *)
+Definition n_path : name := 5242880%positive.         (* "path" *)
+Definition n_query : name := 6291456%positive.        (* "query" *)
+
+(* sortedKeys: insertion sort by key (the keys of a Go map are distinct, so stability is immaterial) *)
+Section Sort.
+  Context {A:Type} (k:A -> positive).
+  Fixpoint insert_by (x:A) (l:list A) : list A :=
+    match l with
+    | [] => [x]
+    | y :: l' => if Pos.leb (k x) (k y) then x :: l else y :: insert_by x l'
+    end.
+  Fixpoint sorted_by (l:list A) : list A :=
+    match l with [] => [] | x :: l' => insert_by x (sorted_by l') end.
+End Sort.
+Definition sort_names : list name -> list name := sorted_by (fun n => n).
 
 (* ---------- types (relmod.go parseFieldType) ---------- *)
 Inductive mtype :=
@@ -55,7 +71,19 @@ Fixpoint parse_field_type (app:appname) (t:mtype) : ty :=
 (* ---------- module projection ---------- *)
 Record attrs := { a_tags : list name; a_annos : list name }.
 
-Inductive payload := PayEmpty | PayGood | PayBad.
+(* what the payload grammar extracts from an accepted payload, as far as the harness's own reading of the payload
+   text goes: status and the type expression; a reference without application means "this application" *)
+Inductive rtype := RPrim (p:name) | RRef (app:appname) (path:list name) | RSet (t:rtype) | RSeq (t:rtype).
+Inductive payload := PayEmpty | PayGood (status:name) (t:option rtype) | PayBad.
+Fixpoint unpack_type (app:appname) (t:rtype) : ty :=
+  match t with
+  | RPrim p => TyPrim p
+  | RRef [] path => TyRef app path
+  | RRef a path => TyRef a path
+  | RSet t' => TySet (unpack_type app t')
+  | RSeq t' => TySeq (unpack_type app t')
+  end.
+Definition label := (name * option rtype)%type.
 Inductive leafkind := LAction | LCall | LRet (p:payload) | LNone.
 Inductive blockkind := BCond | BLoop | BLoopN | BForeach | BGroup.
 Inductive stmt :=
@@ -65,8 +93,9 @@ Inductive stmt :=
 
 Record ptype := { pt_ty : mtype; pt_opt : bool; pt_attrs : attrs }.
 Record param := { p_name : name; p_type : option ptype }.
-Record endpoint := { e_name : name; e_pubsub : bool; e_has_source : bool;
-                     e_rest : option (list param * list param);      (* UrlParam, QueryParam *)
+Record endpoint := { e_name : name; e_long : name; e_doc : name; e_pubsub : bool;
+                     e_source : option (appname * name);             (* Source.Part, the text after " -> " in the name *)
+                     e_rest : option (name * name * list param * list param);   (* Method, Path, UrlParam, QueryParam *)
                      e_params : list param; e_attrs : attrs; e_stmts : list stmt }.
 Record constr := { c_len : option (Z * Z); c_prec : Z; c_scale : Z }.
 Record field := { f_name : name; f_ty : mtype; f_opt : bool; f_constraints : list constr; f_attrs : attrs }.
@@ -76,9 +105,9 @@ Inductive tdef :=
 | DAlias (t:mtype)                      (* Primitive / Sequence / Set / TypeRef *)
 | DEnum (items:list (name * Z))
 | DOther.                               (* NoType, List, Map, OneOf, unset: a Type row only *)
-Record typedecl := { t_name : name; t_opt : bool; t_def : tdef; t_attrs : attrs }.
+Record typedecl := { t_name : name; t_doc : name; t_opt : bool; t_def : tdef; t_attrs : attrs }.
 Record view := { v_name : name; v_ret : mtype; v_attrs : attrs }.
-Record app := { ap_name : appname; ap_attrs : attrs; ap_mixins : list (appname * attrs);
+Record app := { ap_name : appname; ap_long : name; ap_doc : name; ap_attrs : attrs; ap_mixins : list (appname * attrs);
                 ap_eps : list endpoint; ap_types : list typedecl; ap_views : list view }.
 Definition module := list app.         (* in the order of the sorted map keys, as normalizeModule visits them *)
 
@@ -88,16 +117,19 @@ Inductive relname :=
 | RApp | RMixin | REp | REvent | RParam | RStmt | RType | RTable | RField | REnum | RAlias | RView
 | RTag (o:owner) | RAnno (o:owner).
 
-Record row := { r_rel : relname; r_app : appname; r_names : list name; r_path : list N; r_nums : list Z; r_ty : ty }.
+Record row := { r_rel : relname; r_app : appname; r_names : list name; r_path : list N; r_nums : list Z; r_ty : ty;
+                r_app2 : appname }.
 Definition mk (r:relname) (a:appname) (ns:list name) (p:list N) (zs:list Z) (t:ty) : row :=
-  {| r_rel := r; r_app := a; r_names := ns; r_path := p; r_nums := zs; r_ty := t |}.
+  {| r_rel := r; r_app := a; r_names := ns; r_path := p; r_nums := zs; r_ty := t; r_app2 := [] |}.
+Definition mk2 (r:relname) (a:appname) (ns:list name) (zs:list Z) (a2:appname) : row :=
+  {| r_rel := r; r_app := a; r_names := ns; r_path := []; r_nums := zs; r_ty := TyNil; r_app2 := a2 |}.
 
 Definition zb (b:bool) : Z := if b then 1%Z else 0%Z.
 
 (* normalizeXMeta: one tag row per tag (array order), one annotation row per non-"patterns" attribute *)
 Definition meta (o:owner) (a:appname) (keys:list name) (p:list N) (zs:list Z) (at_:attrs) : list row :=
   map (fun t => mk (RTag o) a (keys ++ [t]) p zs TyNil) (a_tags at_) ++
-  map (fun n => mk (RAnno o) a (keys ++ [n]) p zs TyNil) (a_annos at_).
+  map (fun n => mk (RAnno o) a (keys ++ [n]) p zs TyNil) (sort_names (a_annos at_)).
 
 (* ---------- statements ---------- *)
 (* which Stmt* column of the row is set *)
@@ -112,16 +144,18 @@ Definition leaf_code (k:leafkind) (t:name) : Z :=
 Definition block_code (k:blockkind) : Z :=
   match k with BCond => 3 | BLoop => 4 | BLoopN => 5 | BForeach => 6 | BGroup => 7 end%Z.
 Definition choice_code : Z := 9%Z.
+Definition leaf_label (k:leafkind) (t:name) : label :=
+  match k with LRet (PayGood st rt) => (st, rt) | _ => (t, None) end.
 (* `if stmt.GetAction().Action == placeholder { return nil }` *)
 Definition hidden (k:leafkind) (t:name) : bool :=
   match k with LAction => Pos.eqb t n_placeholder | _ => false end.
 
 (* item = what one statement contributes, with the position path still abstract (list N or Go slice) *)
-Inductive sitem (P:Type) := IRow (p:P) (code:Z) (t:name) | ITag (p:P) (t:name) | IAnno (p:P) (n:name).
+Inductive sitem (P:Type) := IRow (p:P) (code:Z) (t:label) | ITag (p:P) (t:name) | IAnno (p:P) (n:name).
 Arguments IRow {P}. Arguments ITag {P}. Arguments IAnno {P}.
 
 Definition smeta {P} (p:P) (a:attrs) : list (sitem P) :=
-  map (ITag p) (a_tags a) ++ map (IAnno p) (a_annos a).
+  map (ITag p) (a_tags a) ++ map (IAnno p) (sort_names (a_annos a)).
 
 Definition mapi_from {A B} (f : N -> A -> B) : list A -> N -> list B :=
   fix go (l:list A) (i:N) : list B :=
@@ -135,14 +169,14 @@ Definition last_choice_path (idx:list N) (n:nat) : list N :=
 (* normalizeStatement with value-semantics paths. Children first, then the statement's own row, then its meta. *)
 Fixpoint path_items (st:stmt) (idx:list N) : list (sitem (list N)) :=
   match st with
-  | SLeaf k t a => if hidden k t then [] else IRow idx (leaf_code k t) t :: smeta idx a
+  | SLeaf k t a => if hidden k t then [] else IRow idx (leaf_code k t) (leaf_label k t) :: smeta idx a
   | SBlock k t a body =>
       concat (mapi_from (fun i c => path_items c (idx ++ [i])) body 0%N)
-      ++ IRow idx (block_code k) t :: smeta idx a
+      ++ IRow idx (block_code k) (t, None) :: smeta idx a
   | SAlt a choices =>
       concat (mapi_from (fun i (ch:name * list stmt) =>
                 concat (mapi_from (fun j c => path_items c ((idx ++ [i]) ++ [j])) (snd ch) 0%N)
-                ++ [IRow (idx ++ [i]) choice_code (fst ch)]) choices 0%N)
+                ++ [IRow (idx ++ [i]) choice_code (fst ch, None)]) choices 0%N)
       ++ smeta (last_choice_path idx (length choices)) a
   end.
 
@@ -188,7 +222,7 @@ Section Heap.
 
   Fixpoint heap_items (st:stmt) (idx:slice) (h:heap) : heap * list (sitem slice) :=
     match st with
-    | SLeaf k t a => (h, if hidden k t then [] else IRow idx (leaf_code k t) t :: smeta idx a)
+    | SLeaf k t a => (h, if hidden k t then [] else IRow idx (leaf_code k t) (leaf_label k t) :: smeta idx a)
     | SBlock k t a body =>
         let '(h1, its) :=
           (fix children (l:list stmt) (i:N) (h:heap) : heap * list (sitem slice) :=
@@ -199,7 +233,7 @@ Section Heap.
                  let '(h2, r1) := heap_items c ci h1 in
                  let '(h3, r2) := children l' (N.succ i) h2 in (h3, r1 ++ r2)
              end) body 0%N h in
-        (h1, its ++ IRow idx (block_code k) t :: smeta idx a)
+        (h1, its ++ IRow idx (block_code k) (t, None) :: smeta idx a)
     | SAlt a choices =>
         let '(h1, its, last) :=
           (fix chs (l:list (name * list stmt)) (i:N) (h:heap) (last:slice) : heap * list (sitem slice) * slice :=
@@ -217,7 +251,7 @@ Section Heap.
                           let '(h3, r2) := children l' (N.succ j) h2 in (h3, r1 ++ r2)
                       end) (snd ch) 0%N h1 in
                  let '(h3, r2, last') := chs l' (N.succ i) h2 ci in
-                 (h3, r1 ++ IRow ci choice_code (fst ch) :: r2, last')
+                 (h3, r1 ++ IRow ci choice_code (fst ch, None) :: r2, last')
              end) choices 0%N h idx in
         (h1, its ++ smeta last a)
     end.
@@ -258,7 +292,7 @@ Fixpoint stmt_bad (st:stmt) : bool :=
 
 Definition item_row (a:appname) (ep:name) (it:sitem (list N)) : row :=
   match it with
-  | IRow p c t => mk RStmt a [ep; t] p [c] TyNil
+  | IRow p c (t, rt) => mk RStmt a [ep; t] p [c] (match rt with Some x => unpack_type a x | None => TyNil end)
   | ITag p t => mk (RTag OStmt) a [ep; t] p [] TyNil
   | IAnno p n => mk (RAnno OStmt) a [ep; n] p [] TyNil
   end.
@@ -293,11 +327,16 @@ Definition ep_rows (cm am:idx_mode) (a:appname) (e:endpoint) : list row :=
     params_rows a (e_name e) n_empty (e_params e) ++
     meta OEvent a [e_name e] [] [] (e_attrs e)
   else
-    mk REp a [e_name e] [] [zb (match e_rest e with Some _ => true | None => false end); zb (e_has_source e)] TyNil ::
+    mk2 REp a [e_name e; e_long e; e_doc e;
+               match e_rest e with Some (m, _, _, _) => m | None => n_empty end;
+               match e_rest e with Some (_, pa, _, _) => pa | None => n_empty end;
+               match e_source e with Some (_, ev) => ev | None => n_empty end]
+        [zb (match e_rest e with Some _ => true | None => false end); zb (match e_source e with Some _ => true | None => false end)]
+        (match e_source e with Some (sa, _) => sa | None => [] end) ::
     meta OEp a [e_name e] [] [] (e_attrs e) ++
     params_rows a (e_name e) n_empty (e_params e) ++
     match e_rest e with
-    | Some (url, query) => params_rows a (e_name e) n_path url ++ params_rows a (e_name e) n_query query
+    | Some (_, _, url, query) => params_rows a (e_name e) n_path url ++ params_rows a (e_name e) n_query query
     | None => []
     end ++
     map (item_row a (e_name e)) (ep_items cm am (e_stmts e)).
@@ -316,10 +355,10 @@ Definition field_rows (a:appname) (tn:name) (f:field) : list row :=
   mk RField a [tn; f_name f] [] (zb (f_opt f) :: field_constraint (f_constraints f)) (parse_field_type a (f_ty f)) ::
   meta OField a [tn; f_name f] [] [] (f_attrs f).
 Definition type_rows (a:appname) (t:typedecl) : list row :=
-  mk RType a [t_name t] [] [zb (t_opt t)] TyNil ::
+  mk RType a [t_name t; t_doc t] [] [zb (t_opt t)] TyNil ::
   match t_def t with
-  | DTuple fs => concat (map (field_rows a (t_name t)) fs)
-  | DRelation pk fs => mk RTable a (t_name t :: pk) [] [] TyNil :: concat (map (field_rows a (t_name t)) fs)
+  | DTuple fs => concat (map (field_rows a (t_name t)) (sorted_by f_name fs))
+  | DRelation pk fs => mk RTable a (t_name t :: pk) [] [] TyNil :: concat (map (field_rows a (t_name t)) (sorted_by f_name fs))
   | DAlias mt => [mk RAlias a [t_name t] [] [] (parse_field_type a mt)]
   | DEnum items => [mk REnum a (t_name t :: map fst items) [] (map snd items) TyNil]
   | DOther => []
@@ -335,12 +374,12 @@ Definition mixin_rows (a:appname) (m:appname * attrs) : list row :=
 (* ---------- applications (normalizeApp) ---------- *)
 Definition app_rows (cm am:idx_mode) (ap:app) : list row :=
   let a := ap_name ap in
-  mk RApp a [] [] [] TyNil ::
+  mk RApp a [ap_long ap; ap_doc ap] [] [] TyNil ::
   meta OApp a [] [] [] (ap_attrs ap) ++
   concat (map (mixin_rows a) (ap_mixins ap)) ++
-  concat (map (ep_rows cm am a) (ap_eps ap)) ++
-  concat (map (type_rows a) (ap_types ap)) ++
-  concat (map (view_rows a) (ap_views ap)).
+  concat (map (ep_rows cm am a) (sorted_by e_name (ap_eps ap))) ++
+  concat (map (type_rows a) (sorted_by t_name (ap_types ap))) ++
+  concat (map (view_rows a) (sorted_by v_name (ap_views ap))).
 
 Inductive outcome := Rows (rs:list row) | Refused.
 
